@@ -215,4 +215,18 @@ def auth_cases(rng, n):
         else:
             steps += [step(b"221 bye\r\n")]
         cases.append(client_case("sa"[i % 2], "client.example", prog, "a@b.c", ["x@y.z"], b"hello\r\n", prefs, user, pw, steps))
+    # a server that keeps challenging: 8 .. 14 well-formed LOGIN challenges in a row, then success, a further challenge, or a refusal;
+    # the exchange is bounded (10 rounds) and an exchange that does not end in success must not count as authenticated
+    for k in range(8, 15):
+        for last in (b"235 2.7.0 ok\r\n", b"334 " + b64(b"Username:") + b"\r\n", b"535 5.7.8 no\r\n"):
+            for client in "sa":
+                for prog in ("A", "AS"):
+                    steps = [step(b"220 srv\r\n"), step(b"250-srv\r\n250 AUTH LOGIN\r\n")]
+                    steps += [step(b"334 " + b64([b"Username:", b"Password:"][j % 2]) + b"\r\n") for j in range(k)]
+                    steps += [step(last)]
+                    if prog == "AS":
+                        steps += [s for _, s in happy(rng, [], 1)[2:]]
+                    else:
+                        steps += [step(b"221 bye\r\n")]
+                    cases.append(client_case(client, "client.example", prog, "a@b.c", ["x@y.z"], b"hello\r\n", "L", "user", "secret", steps))
     return cases
